@@ -27,6 +27,8 @@ pub enum Step {
     /// ROLLBACK with no read by the monitor afterwards (a read is a committing transaction and would change what
     /// the next VACUUM considers recent)
     RollbackQuiet(usize),
+    /// COMMIT with no read by the monitor afterwards
+    CommitQuiet(usize),
     /// BEGIN of a session during which the monitor issues no statement of its own (no fresh-reader checks)
     BeginQuiet(usize),
     /// a session that writes nothing and stays open while the following steps run
@@ -53,6 +55,7 @@ impl Step {
             Step::Raw(s, _) => s.clone(),
             Step::RollbackQuiet(i) => format!("@s{} rollback (no read after)", i),
             Step::BeginQuiet(i) => format!("@s{} begin (no monitor reads until it ends)", i),
+            Step::CommitQuiet(i) => format!("@s{} commit (no read after)", i),
             Step::BeginIdle(i) => format!("@s{} begin (idle)", i),
             Step::EndIdle(i, c) => format!("@s{} {} (idle)", i, if *c { "commit" } else { "rollback" }),
             Step::Burn(n) => format!("@burn {} SELECT", n),
@@ -86,6 +89,9 @@ pub struct Profile {
     /// DELETE inside a transaction that will be rolled back is generated, but the rows it touched are never the
     /// target of a later DELETE / UPDATE (that is the open finding `rolled_back_delete_blocks_later_delete`)
     pub tainting_deletes: bool,
+    /// quiet committing sessions that insert rows and update those same rows once (NULL flips included), followed
+    /// directly by VACUUM
+    pub own_row_updates: bool,
     /// some histories first advance the transaction counter by 1000-3000 read-only statements
     pub burn: bool,
 }
@@ -110,6 +116,7 @@ impl Profile {
             configs: vec![default_cfg()],
             bystander: false,
             tainting_deletes: false,
+            own_row_updates: false,
             burn: false,
         }
     }
@@ -361,6 +368,17 @@ impl Exec {
                 }
                 Err(e) => self.fail("session", "begin-failed", &e),
             },
+            Step::CommitQuiet(i) => {
+                let Some((sx, ov)) = self.sessions.remove(i) else { return };
+                self.atoms.insert("hist.quiet_commit".into());
+                match sx.commit() {
+                    Ok(()) => {
+                        self.committed = ov;
+                        self.transcript.push("commit ok".into());
+                    }
+                    Err(e) => self.fail("commit", &format!("unexpected-error({})", err_class(&e)), &e),
+                }
+            }
             Step::RollbackQuiet(i) => {
                 let Some((sx, _)) = self.sessions.remove(i) else { return };
                 self.atoms.insert("hist.rollback".into());
@@ -618,6 +636,7 @@ pub fn gen_history(r: &mut Rng, p: &Profile) -> (Table, Vec<Step>) {
     let mut sid = 0usize;
     let mut i = 0;
     let mut idle: Option<usize> = None;
+    let mut own_ids: Vec<i128> = vec![];
     // ids of rows touched by a DELETE that was rolled back (never targeted again: open finding)
     let mut tainted: BTreeSet<String> = BTreeSet::new();
     if p.burn && hg.r.chance(1, 16) {
@@ -639,6 +658,11 @@ pub fn gen_history(r: &mut Rng, p: &Profile) -> (Table, Vec<Step>) {
         if let Some((s, mut ov, left, end)) = open.take() {
             if left == 0 {
                 match end {
+                    4 => {
+                        steps.push(Step::CommitQuiet(s));
+                        model = ov;
+                        steps.push(Step::Vacuum);
+                    }
                     3 => {
                         // VACUUM right after the ROLLBACK, with no transaction in between
                         steps.push(Step::RollbackQuiet(s));
@@ -660,20 +684,49 @@ pub fn gen_history(r: &mut Rng, p: &Profile) -> (Table, Vec<Step>) {
                 }
                 continue;
             }
-            let mut st = if p.failing && hg.r.chance(1, 8) {
+            let mut taint_after: Option<String> = None;
+            let mut st = if end == 4 {
+                if own_ids.is_empty() || hg.r.chance(1, 3) {
+                    let st = hg.insert_only(&ov, &mut next_id);
+                    if let Stmt::Insert(_, _, rows) = &st {
+                        for row in rows {
+                            if let Some(Expr::Lit(V::I(k))) = row.first() {
+                                own_ids.push(*k);
+                            }
+                        }
+                    }
+                    st
+                } else {
+                    // one UPDATE per own row: a random value column gets a new value or NULL
+                    let k = own_ids.remove(hg.r.usize(own_ids.len()));
+                    taint_after = Some(V::I(k).key()); // an updated row is never the target of a later DELETE / UPDATE (open findings)
+                    let t = ov.tables.values().next().unwrap().clone();
+                    let ci = hg.r.range(1, t.cols.len() as i64 - 1) as usize;
+                    let lang2 = hg.lang.clone();
+                    let mut g = Gen::new(hg.r, &lang2);
+                    // flip NULL-ness on purpose in two thirds of the updates
+                    let cur_null = t.rows.iter().find(|row| row[0] == V::I(k)).map(|row| row[ci].is_null()).unwrap_or(false);
+                    let v = if cur_null { g.value(t.cols[ci].ty, false) } else if !t.cols[ci].not_null && g.r.chance(2, 3) { V::Null } else { g.value(t.cols[ci].ty, false) };
+                    Stmt::Update(t.name.clone(), vec![(t.cols[ci].name.clone(), Expr::Lit(v))], Some(bin(Op::Eq, bin(Op::Add, col("id"), Expr::Lit(V::I(0))), Expr::Lit(V::I(k)))))
+                }
+            } else if p.failing && hg.r.chance(1, 8) {
                 hg.failing_stmt(&ov)
             } else if end != 0 && !p.delete_in_rolled_back && !p.tainting_deletes {
                 hg.insert_only(&ov, &mut next_id)
             } else {
                 hg.dml(&ov, &mut next_id, true)
             };
-            if p.tainting_deletes {
+            if p.tainting_deletes || p.own_row_updates {
                 let touched = touched_ids(&ov, &st);
                 if touched.iter().any(|t| tainted.contains(t)) {
                     st = hg.insert_only(&ov, &mut next_id);
-                } else if end != 0 {
+                } else if end != 0 && end != 4 || matches!(st, Stmt::Update(..)) {
+                    // rows touched by a rolled-back DELETE, and rows that were updated, are never targeted again (open findings)
                     tainted.extend(touched);
                 }
+            }
+            if let Some(k) = taint_after {
+                tainted.insert(k);
             }
             ov.apply(&st);
             steps.push(Step::In(s, st));
@@ -685,7 +738,12 @@ pub fn gen_history(r: &mut Rng, p: &Profile) -> (Table, Vec<Step>) {
             sid += 1;
             let k = hg.r.below(10);
             let mut end = if p.rollback && k < 4 { 1 } else if p.rollback && k < 5 { 2 } else { 0 };
-            if end == 1 && ((p.vacuum && hg.r.chance(1, 2)) || (!p.vacuum && hg.r.chance(1, 4))) {
+            let tbl = model.tables.values().next().unwrap();
+            if p.own_row_updates && p.vacuum && end == 0 && !p.unique_key && tbl.cols.len() > 1 && !tbl.cols.iter().any(|c| matches!(c.ty, Ty::Bool)) && hg.r.chance(1, 2) {
+                end = 4; // quiet: insert, update the inserted rows once, commit, VACUUM at once
+                steps.push(Step::BeginQuiet(sid));
+                own_ids.clear();
+            } else if end == 1 && ((p.vacuum && hg.r.chance(1, 2)) || (!p.vacuum && hg.r.chance(1, 4))) {
                 end = 3; // quiet session: rolled back and vacuumed with no other transaction in between
                 steps.push(Step::BeginQuiet(sid));
             } else {
@@ -708,7 +766,7 @@ pub fn gen_history(r: &mut Rng, p: &Profile) -> (Table, Vec<Step>) {
                 } else {
                     hg.dml(&ov, &mut next_id, true)
                 };
-                let st = if p.tainting_deletes && touched_ids(&ov, &st).iter().any(|t| tainted.contains(t)) { hg.insert_only(&ov, &mut next_id) } else { st };
+                let st = if (p.tainting_deletes || p.own_row_updates) && touched_ids(&ov, &st).iter().any(|t| tainted.contains(t)) { hg.insert_only(&ov, &mut next_id) } else { st };
                 if matches!(ov.apply(&st), MOut::Err(_)) {
                     ok = false;
                 }
@@ -730,7 +788,7 @@ pub fn gen_history(r: &mut Rng, p: &Profile) -> (Table, Vec<Step>) {
             steps.push(Step::Auto(st));
         } else {
             let mut st = hg.dml(&model, &mut next_id, false);
-            if p.tainting_deletes && touched_ids(&model, &st).iter().any(|t| tainted.contains(t)) {
+            if (p.tainting_deletes || p.own_row_updates) && touched_ids(&model, &st).iter().any(|t| tainted.contains(t)) {
                 st = hg.insert_only(&model, &mut next_id);
             }
             model.apply(&st);
@@ -788,7 +846,7 @@ pub fn history_hash(steps: &[Step]) -> u64 {
 }
 
 pub fn nontrivial(steps: &[Step]) -> bool {
-    steps.iter().any(|s| matches!(s, Step::Rollback(_) | Step::RollbackQuiet(_) | Step::DropSess(_) | Step::Commit(_) | Step::Batch(_) | Step::Vacuum | Step::Reopen(_) | Step::Flush))
+    steps.iter().any(|s| matches!(s, Step::Rollback(_) | Step::RollbackQuiet(_) | Step::CommitQuiet(_) | Step::DropSess(_) | Step::Commit(_) | Step::Batch(_) | Step::Vacuum | Step::Reopen(_) | Step::Flush))
 }
 
 pub fn run_profile(p: &Profile, seed: u64, shard: u64, n_hist: usize) {
@@ -815,6 +873,7 @@ pub fn run_profile(p: &Profile, seed: u64, shard: u64, n_hist: usize) {
                 Step::Raw(..) => "raw",
                 Step::RollbackQuiet(_) => "rollback_then_vacuum",
                 Step::BeginQuiet(_) => "begin",
+                Step::CommitQuiet(_) => "commit_then_vacuum",
                 Step::BeginIdle(_) => "begin_idle",
                 Step::EndIdle(..) => "end_idle",
                 Step::Burn(_) => "burn",
